@@ -387,7 +387,7 @@ def run(ctx):
         shutil.rmtree(scratch, ignore_errors=True)
         return ctx.finish(RULE, False, [])
     infra0 = core.run_batches(ctx, "pyv.c20", sweep_cases())
-    total = 10000 if ctx.thorough else 400
+    total = 4000 if ctx.thorough else 400
     infra = core.hypothesis_search(ctx, "pyv.c20", total, profiles=("thorough", "web-thorough") if ctx.thorough else ("quick", "web-quick"))
     scratch = core.make_scratch("C20", "kf")
     rc = ctx.finish(RULE, False, [
